@@ -17,6 +17,55 @@ func isLockInsert(call ssa.CallInstruction) bool {
 	return ok && strings.Contains(s, "_litestream_lock") && strings.HasPrefix(strings.ToUpper(strings.TrimSpace(s)), "INSERT")
 }
 
+// lockInsertErr / lockInsertTx: the error result and the transaction of a write-lock
+// insert, which is either the ExecContext call itself or a call to an extracted helper
+// that performs it on the transaction it is given.
+func lockInsertErr(ins ssa.CallInstruction) ssa.Value {
+	if isLockInsert(ins) {
+		return resultOf(ins, 1)
+	}
+	if i := errResultIndex(ins.Common().Signature()); i >= 0 {
+		return resultOf(ins, i)
+	}
+	return nil
+}
+
+func lockInsertTx(ins ssa.CallInstruction) ssa.Value {
+	if isLockInsert(ins) {
+		return ins.Common().Args[0]
+	}
+	h := ins.Common().StaticCallee()
+	if h == nil {
+		return nil
+	}
+	for _, k := range calls(h) {
+		if isLockInsert(k) {
+			for j, p := range h.Params {
+				for _, o := range origins(k.Common().Args[0]) {
+					if o == ssa.Value(p) && j < len(ins.Common().Args) {
+						return ins.Common().Args[j]
+					}
+				}
+			}
+		}
+	}
+	return nil
+}
+
+// helperLockInsert: call is a call to a new helper that performs a write-lock insert.
+func helperLockInsert(call ssa.CallInstruction) bool {
+	h := call.Common().StaticCallee()
+	if !isNewHelper(h) {
+		return false
+	}
+	for _, k := range calls(h) {
+		if isLockInsert(k) {
+			return true
+		}
+	}
+	return false
+}
+
 func checkpointProtocolRules(c *Ctx) {
 	const rule = "R8-checkpoint-protocol"
 	fn := c.fn(rule, "(*ls.DB).checkpointWithExecutor")
@@ -40,7 +89,7 @@ func checkpointProtocolRules(c *Ctx) {
 		case "(*ls.DB).bumpLitestreamSeq":
 			bumps = append(bumps, call)
 		}
-		if isLockInsert(call) {
+		if isLockInsert(call) || helperLockInsert(call) {
 			inserts = append(inserts, call)
 		}
 	}
@@ -75,7 +124,7 @@ func checkpointProtocolRules(c *Ctx) {
 	if barrier == nil {
 		c.fail(rule, name+": PASSIVE checkpoints take the write-lock barrier before the checkpoint", c.pos(exec), "no _litestream_lock insert guarded by mode == PASSIVE precedes execCheckpoint")
 	} else {
-		c.requireAlts(rule, fn, Site{exec, "execCheckpoint"}, []FP{notPassive, cmpFact(vIs(resultOf(barrier, 1)), token.EQL, vNil(), "barrier insert err == nil")})
+		c.requireAlts(rule, fn, Site{exec, "execCheckpoint"}, []FP{notPassive, cmpFact(vIs(lockInsertErr(barrier)), token.EQL, vNil(), "barrier insert err == nil")})
 		sealed := false
 		for _, v := range vs {
 			if dominates(barrier, v) && reachable(fn, v.Block(), nil)[exec.Block()] {
@@ -91,7 +140,7 @@ func checkpointProtocolRules(c *Ctx) {
 			if _, isCall := call.(*ssa.Call); !isCall || calleeName(call) != "ls.rollback" {
 				continue
 			}
-			if sameTx(call.Common().Args[0], barrier.Common().Args[0]) {
+			if sameTx(call.Common().Args[0], lockInsertTx(barrier)) {
 				c.check(dominates(exec, call), rule, name+": the barrier transaction is rolled back only after the checkpoint ran", c.pos(call), "execCheckpoint dominates rollback(barrierTx)", "the write lock is released before the checkpoint")
 			}
 		}
@@ -153,9 +202,9 @@ func checkpointProtocolRules(c *Ctx) {
 		}
 		c.check(lock != nil, rule, name+": the boundary snapshot is taken under the write lock", c.pos(s), "a _litestream_lock insert dominates it", "boundary snapshot without the write lock")
 		if lock != nil {
-			c.requireGuard(rule, fn, Site{s, "boundary snapshot"}, cmpFact(vIs(resultOf(lock, 1)), token.EQL, vNil(), "lock insert err == nil"))
+			c.requireGuard(rule, fn, Site{s, "boundary snapshot"}, cmpFact(vIs(lockInsertErr(lock)), token.EQL, vNil(), "lock insert err == nil"))
 			for _, call := range calls(fn) {
-				if _, isCall := call.(*ssa.Call); isCall && calleeName(call) == "ls.rollback" && sameTx(call.Common().Args[0], lock.Common().Args[0]) {
+				if _, isCall := call.(*ssa.Call); isCall && calleeName(call) == "ls.rollback" && sameTx(call.Common().Args[0], lockInsertTx(lock)) {
 					c.check(dominates(s, call), rule, name+": the write lock is released after the boundary snapshot", c.pos(call), "ordered", "lock released before the snapshot")
 				}
 			}
